@@ -193,15 +193,7 @@ def run(prog, chk, fs):
         defs = q.local_defs(f)
         other = f.params[0]
         P = re.escape(other["n"])
-        guard_edges = []
-        for b in f.blocks.values():
-            c = b.get("cond")
-            if c is None or len(b["succ"]) != 2:
-                continue
-            t = q.no_casts(f.r(c))
-            if re.search(r"this (==|!=) &%s\b|&%s (==|!=) this" % (P, P), t):
-                eq = "==" in t
-                guard_edges.append((b["id"], b["succ"][1] if eq else b["succ"][0]))
+        guard_edges = fin.alias_guard_edges(f, other["n"])
         n_ok = n_bad = 0
         for c in q.calls_named(f, "Memory::copy"):
             a = q.call_args(f, c)
